@@ -9,6 +9,15 @@ NOTE = ("Trusted base: clang 14 front end + clang::CFG, tools/xzfacts.cc, sa/*.p
         "of the property is NOT decided (see DESIGN.md section 4).")
 
 CLAIMED = {
+ "C13": dict(
+  text="Structural clauses of the Index/file-info APIs decided on the AST/CFG: dup functions copy every semantic member "
+       "(found lzma_index_dup dropping 'checks', now fixed); init functions initialise every member; the aggregate counters are "
+       "updated together by append and combined by cat; append/cat/stream_padding/stream_flags make no caller-visible store on "
+       "any path ending in an error return (product-graph effect analysis, restore idiom recognised); every format limit has "
+       "its guard; iterator never keeps the reallocated rightmost group; file_info seek target only decreases under a "
+       "dominating bound check. Does NOT decide tree balancing, locate results or size arithmetic.",
+  technique="field-coverage and effect-ordering dataflow on the product graph, dominator-based guard rules, who-may-write",
+  ref="4/C13"),
  "C05": dict(
   text="Edge-cut rule on the resume-aware (CFG block x finite state) product graph of every container decoder "
        "(stream, threaded stream, block, block header, stream header/footer, index, index hash, lzip): after deleting the "
